@@ -37,6 +37,35 @@ def split_collect(var):
         return rx.subn(rep, text, count=1)
     return f
 
+def split_collect_rec(text):
+    rx = re.compile(r'let map = (map\s*\.iter\(\)\s*\.map\(.*?\}\))\s*\.collect::<Result<Vec<_>>>\(\)\?;', re.S)
+    def rep(m):
+        return ('let __vx_it = ' + m.group(1) + ';\n                let ghost __vx_rs = __vx_it.items();\n'
+                '                let __vx_c = __vx_it.collect::<Result<Vec<_>>>();\n'
+                '                proof {\n'
+                '                    assert forall|i: int| 0 <= i < __vx_rs.len() implies agrees_pv(#[trigger] snd_results(__vx_rs)[i], sem(self, *slots, node_items(*expr)[i])) by {}\n'
+                '                    lemma_items_rec(self, *slots, *expr, __vx_rs, __vx_c);\n                }\n'
+                '                let map = __vx_c?;')
+    return rx.subn(rep, text, count=1)
+
+def split_record_value(text):
+    rx = re.compile(r'Ok\(Value::record\((names\.into_iter\(\)\.zip\(vals\)), loc\.cloned\(\)\)\.into\(\)\)')
+    rep = '''let ghost __vx_vs = vals.items();
+                        let __vx_pairs = vx_zip(names, vals);
+                        proof {
+                            let n = node_items(*expr).len(); let ko = expr.expr_kind->Record_0.key_order();
+                            if sem_items(self, *slots, *expr, n) is Vals {
+                                let ks = sem_items(self, *slots, *expr, n)->Vals_0;
+                                assert forall|j: int| 0 <= j < ks.len() implies #[trigger] pair_kinds(__vx_pairs.items())[j] == rec_pairs(ko, ks)[j] by {
+                                    assert(__vx_map@[j] == (__vx_names@[j], __vx_evalled@[j]));
+                                    assert(__vx_evalled@[j] == PartialValue::Value(__vx_vs[j]));
+                                }
+                                assert(pair_kinds(__vx_pairs.items()) =~= rec_pairs(ko, ks));
+                            }
+                        }
+                        Ok(Value::record(__vx_pairs, loc.cloned()).into())'''
+    return rx.subn(lambda m: rep, text, count=1)
+
 FIELDS = [
     (r'self\.principal\.evaluate', 'self.vx_principal().evaluate', None),
     (r'self\.action\.evaluate', 'self.vx_action().evaluate', None),
@@ -97,11 +126,19 @@ ITEMS = [
     Fn(EVAL, "impl<'e> Evaluator<'e> > fn partial_interpret_internal", wrap=W, attrs=NODEC,
        ensures=[('sem', 'agrees_pv(r, sem(self, *slots, *expr))')],
        proof_start='broadcast use axiom_btreemap_order_ok;',
-       hints=[(r'let \(names, evalled\): \(Vec<SmolStr>, Vec<PartialValue>\) = vx_unzip\(map\);', '''proof {
+       hints=[(r'let map = __vx_c\?;', 'let ghost __vx_map = map;'),
+              (r'let \(names, evalled\): \(Vec<SmolStr>, Vec<PartialValue>\) = vx_unzip\(map\);', '''let ghost __vx_names = names; let ghost __vx_evalled = evalled;
+                proof {
                     let ko = expr.expr_kind->Record_0.key_order();
                     assert(names@.len() == ko.len());
                     assert forall|i: int| 0 <= i < ko.len() implies #[trigger] names@[i] == ko[i] by { assert(map@[i] == (names@[i], evalled@[i])); }
                     assert forall|i: int, j: int| 0 <= i < j < names@.len() implies names@[i] != names@[j] by { assert(ko[i] != ko[j]); }
+                    assert forall|i: int| 0 <= i < evalled@.len() implies #[trigger] evalled@[i] == __vx_map@[i].1 by { assert(__vx_map@[i] == (names@[i], evalled@[i])); }
+                    if exists|k: int| 0 <= k < evalled@.len() && evalled@[k] is Residual {
+                        let k = choose|k: int| 0 <= k < evalled@.len() && evalled@[k] is Residual;
+                        assert(__vx_map@[k].1 is Residual);
+                        assert(sem(self, *slots, *expr) is Unk);
+                    }
                 }''')],
        rewrites=FIELDS + [
            (r'err::EvaluationError', 'EvaluationError', None),
@@ -119,7 +156,10 @@ ITEMS = [
            (r'args\s*\.iter\(\)', 'vx_arc_vec_iter(args)', 1), (r'items\s*\.iter\(\)', 'vx_arc_vec_iter(items)', 1),
            ClosureRw(r'arg', 'arg: &Expr', ret='Result<PartialValue>', requires='true', ensures='agrees_pv(r, sem(self, *slots, *arg))'),
            ClosureRw(r'item', 'item: &Expr', ret='Result<PartialValue>', requires='true', ensures='agrees_pv(r, sem(self, *slots, *item))'),
-           ClosureRw(r'\(k, v\)', '_vxp: (&SmolStr, &Expr)', ret='Result<(SmolStr, PartialValue)>', ensures='r is Ok ==> r->Ok_0.0 == *_vxp.0', destructure='(k, v)'),
+           ClosureRw(r'\(k, v\)', '_vxp: (&SmolStr, &Expr)', ret='Result<(SmolStr, PartialValue)>', requires='true', destructure='(k, v)',
+                     ensures='(r is Ok ==> r->Ok_0.0 == *_vxp.0) && agrees_pv(match r { Ok(p) => Ok::<PartialValue, EvaluationError>(p.1), Err(err) => Err::<PartialValue, EvaluationError>(err) }, sem(self, *slots, *_vxp.1))'),
+           FnRw('statement split of `let map = map.iter().map(..).collect::<Result<Vec<_>>>()?;` in the Record arm (order preserved) and the list lemma', split_collect_rec, 1),
+           FnRw('statement split of `Ok(Value::record(ZIP, loc.cloned()).into())`: the zipped pairs are bound to a local first', split_record_value, 1),
            FnRw('bind the sub-expressions of `let args = ITER.map(..).collect::<Result<Vec<_>>>()?;` to locals (statement split, order preserved) and insert the list lemma', split_collect('args'), 1),
            FnRw('same statement split for `let vals = ..collect()?;` in the Set arm', split_collect('vals'), 1),
            (r'Either::Left\(vals\) => Ok\(Value::set\(vals, loc\.cloned\(\)\)\.into\(\)\),',
@@ -133,7 +173,7 @@ ITEMS = [
                         }
                     } Ok(Value::set(vals, loc.cloned()).into()) },''', 1),
            (r'map\.into_iter\(\)\.unzip\(\)', 'vx_unzip(map)', 1),
-           (r'names\.into_iter\(\)\.zip\((\w+)\)', r'vx_zip(names, \1)', 2),
+           (r'names\.into_iter\(\)\.zip\((\w+)\)', r'vx_zip(names, \1)', 1),
            (r'nonempty!\[\s*Type::Record,\s*Type::entity_type\(names::ANY_ENTITY_TYPE\.clone\(\)\)\s*\]', 'nonempty2(Type::Record, Type::entity_type(names::any_entity_type()))', 1),
            cmp_rw(r'type_of_unknown', r'entity_type', 'vx_etype'),
            cmp_rw(r'v\.get_as_entity\(\)\?\.entity_type\(\)', r'entity_type', 'vx_etype'),
